@@ -19,7 +19,7 @@ type c23Ev struct {
 	V uint8  `json:"v"`
 }
 
-var c23Alphabet = []c23Ev{{0xff01, 0x00}, {0xff01, 0x0a}, {0xff01, 0x41}, {0xff01, 0xff}, {0xff02, 0x00}, {0xff02, 0x81},
+var c23Alphabet = []c23Ev{{0xff01, 0x00}, {0xff01, 0x0a}, {0xff01, 0x41}, {0xff01, 0xff}, {0xff02, 0x00}, {0xff02, 0x81}, {0xff02, 0x80}, {0xff02, 0x01}, {0xff02, 0xff},
 	{0xff00, 0x30}, {0xff04, 0x00}, {0xff0f, 0x00}, {0xc000, 0x41}, {0xff03, 0x41}}
 
 type c23Seq struct {
@@ -188,14 +188,14 @@ func c23ROMCheck(l *explore.Local, _ struct{}, c c23ROM) *explore.Fail {
 func init() {
 	register("C23", "model_checking", func(c *Ctx) {
 		if c.R != nil {
-			c.R.Rule = "(a) every sequence of up to the length bound over 11 Mapper writes (SB with 4 values, SC 00/81, JOYP, DIV, IF, WRAM, FF03), with a recording writer and with no writer, with and without machine cycles in between: the transcript must equal the SB writes in order after every write, SB/SC read FF; (b) every opcode executed with every pointer register, SP, n and nn aimed at FF00, FF01, FF02: the bytes delivered must equal the reference CPU's writes to FF01 (read-modify-write instructions write once, PUSH / LD (nn),SP hit FF01 with one of their two bytes); (c) blargg ROMs: transcript equals the SB stores decoded by a per-instruction monitor"
+			c.R.Rule = "(a) every sequence of up to the length bound over 14 Mapper writes (SB with 4 values, SC in {00,81,80,01,FF}, JOYP, DIV, IF, WRAM, FF03), with a recording writer and with no writer, with and without machine cycles in between: the transcript must equal the SB writes in order after every write, SB/SC read FF; (b) every opcode executed with every pointer register, SP, n and nn aimed at FF00, FF01, FF02: the bytes delivered must equal the reference CPU's writes to FF01 (read-modify-write instructions write once, PUSH / LD (nn),SP hit FF01 with one of their two bytes); (c) blargg ROMs: transcript equals the SB stores decoded by a per-instruction monitor"
 			c.R.Assumptions = []string{"delivery through gameboy.New's Config.SerialWriter wiring is compared in C26"}
 		}
 		n := 4
 		if c.Thorough() {
 			n = 5
 		}
-		explore.Product(c.R, "mapper-write-sequences", explore.PartOpt{Bound: fmt.Sprintf("all sequences of length <= %d", n), Domain: "11 writes x writer/no writer x ticking/not"},
+		explore.Product(c.R, "mapper-write-sequences", explore.PartOpt{Bound: fmt.Sprintf("all sequences of length <= %d", n), Domain: "14 writes (SB x 4 values, SC in {00,81,80,01,FF}, JOYP, DIV, IF, WRAM, FF03) x writer/no writer x ticking/not"},
 			func(yield func(c23Seq) bool) {
 				seq := make([]int, 0, n)
 				var rec func() bool
@@ -226,7 +226,7 @@ func init() {
 				}
 				rec()
 			}, func() struct{} { return struct{}{} }, c23SeqCheck)
-		explore.Product(c.R, "cpu-stores", explore.PartOpt{Bound: "single instruction", Domain: "every opcode x pointers {FF00,FF01,FF02,FEFF} x A x flags"},
+		explore.Product(c.R, "cpu-stores", explore.PartOpt{History: 256, Bound: "single instruction (the emulator instance is reused from case to case, so stores to SC/IF/JOYP by earlier cases are part of the state)", Domain: "every opcode x pointers {FF00,FF01,FF02,FEFF} x A x flags"},
 			func(yield func(c23CPU) bool) {
 				for op := 0; op < 512; op++ {
 					if op < 256 && (ref.UndefinedOpcodes[uint8(op)] || op == 0xcb || op == 0x76 || op == 0x10) {
